@@ -43,7 +43,8 @@ RULE = (
     "name/type/class as text, nameservers as address strings (Do53 enrichment, per-server ports), source address/port, "
     "one name asked for types X/Y/X; plus stand-alone candidate-name, chaining and _compute_timeout (clock also running "
     "backwards) cases; resolve_name for AF_UNSPEC/AF_INET/AF_INET6 (first lookup often using up most of the lifetime), "
-    "canonical_name, resolve_address, zone_for_name; "
+    "canonical_name, resolve_address, zone_for_name; multi-name request sequences through cache None / Cache() / "
+    "LRUCache(1|2|3) with clock advances across TTLs (expiry, re-resolve, churn past capacity); "
     "a case is non-trivial if its key (configuration, requests, script) is new and it issued at least one query or cache probe"
 )
 TRUSTED_BASE = [
@@ -60,6 +61,9 @@ ASSUMPTIONS = [
     "broken-server exclusion is per candidate name: the code rebuilds the server list for each candidate (DESIGN §7 C16)",
     "timeouts/lifetimes are exact binary fractions of a second in generated cases so that float and integer-millisecond arithmetic agree",
     "TSIG/EDNS request decoration, DoH/DoT/DoQ transports and resolv.conf parsing are outside the model",
+    "the cache of the Lean model is the unbounded timed map; histories in which a small LRUCache (capacity 1-3) had to evict "
+    "are judged by the oracle's own reference LRU (served from cache within TTL, asked again after expiry, contents after "
+    "every resolution, no foreign exception) and by the sync/async comparison, not by the model (LRU internals are C17)",
     "composite entry points: resolve_name is modelled and proved; canonical_name, resolve_address (sync + asyncio) and the "
     "synchronous zone_for_name are driven and checked by the oracle only (each inner resolve as a resolution of its own, the "
     "shared lifetime as a budget); try_ddr, resolve_at/make_resolver_at and the module-level wrappers around the default "
@@ -419,7 +423,7 @@ def configure(res, cfg, world):
     if cfg["cache"] == 1:
         res.cache = dns.resolver.Cache()
     elif cfg["cache"] == 2:
-        res.cache = dns.resolver.LRUCache(50)
+        res.cache = dns.resolver.LRUCache(cfg.get("lru", 50))
     else:
         res.cache = None
 
@@ -828,10 +832,54 @@ def classify(ev, cfg):
     return ("broken",)
 
 
+class RefCache:
+    """reference for what a resolver cache must hold, kept by the oracle across the resolutions of a case and never read
+    from the implementation: a timed map keyed by (name, type, class); with a capacity it is least-recently-used —
+    a hit makes the entry the most recent, a look-up that finds an expired entry drops it, a store evicts from the
+    least-recent end until there is room (expired entries count until they are dropped)."""
+
+    def __init__(self, capacity=None):
+        self.cap = capacity
+        self.items = []  # [key, entry] most recent first; entry = (exp_ms, hasrr, rcode, answer object or None)
+        self.evictions = 0
+
+    def get(self, key, now):
+        for i, (k, v) in enumerate(self.items):
+            if k == key:
+                if v[0] <= now:
+                    if self.cap is not None:
+                        del self.items[i]
+                    return None
+                if self.cap is not None:
+                    self.items.insert(0, self.items.pop(i))
+                return v
+        return None
+
+    def put(self, key, entry):
+        self.items = [kv for kv in self.items if kv[0] != key]
+        if self.cap is not None:
+            while len(self.items) >= self.cap:
+                self.items.pop()
+                self.evictions += 1
+        self.items.insert(0, [key, entry])
+
+    def live(self, now):
+        return {k: v for k, v in self.items if v[0] > now}
+
+    def adopt(self, view):
+        """remember the implementation's Answer objects of entries both sides hold (for identity checks only)"""
+        for kv in self.items:
+            got = view.get(kv[0])
+            if got is not None and got[:3] == kv[1][:3]:
+                kv[1] = got
+
+
 def oracle(ctx, case, obs, rep):
-    """the clauses of the property, evaluated on the implementation's trace"""
+    """the clauses of the property, evaluated on the implementation's trace; returns whether the reference cache
+    ever evicted (then the unbounded timed map of the Lean model is not the cache in use)"""
     cfg = case["cfg"]
     cache_on = cfg["cache"] != 0
+    cache = RefCache(cfg.get("lru", 50) if cfg["cache"] == 2 else None)
     server_ids = [s for s, _ in cfg["servers"]]
     always_max = {s: bool(a) for s, a in cfg["servers"]}
     distinct_servers = len(set(server_ids)) == len(server_ids)
@@ -910,7 +958,6 @@ def oracle(ctx, case, obs, rep):
             return True
 
         # ---- walk the trace candidate by candidate
-        cache = dict(o["before"])  # reference view of the cache during this resolution (live entries at start)
         qi = 0
         tnow = start  # time of the cache probes of the candidate being walked
         nx_names = []
@@ -922,14 +969,14 @@ def oracle(ctx, case, obs, rep):
         for ci, cand in enumerate(cands):
             lc = lower_labels(cand)
             if cache_on:
-                hit = cache.get((lc, rq["ty"], rq["cls"]))
-                if hit is not None and hit[0] > tnow:
+                hit = cache.get((lc, rq["ty"], rq["cls"]), tnow)
+                if hit is not None:
                     finished = "NoAnswer" if (not hit[1] and rq["rona"]) else "CacheHit"
                     detail = hit
                     seg = []
                     break
-                nxe = cache.get((lc, ANY, rq["cls"]))
-                if nxe is not None and nxe[0] > tnow and nxe[2] == NXDOMAIN:
+                nxe = cache.get((lc, ANY, rq["cls"]), tnow)
+                if nxe is not None and nxe[2] == NXDOMAIN:
                     nx_names.append(lc)
                     if nxe[3] is not None:
                         nx_msgs[lc] = nxe[3].response
@@ -1020,7 +1067,7 @@ def oracle(ctx, case, obs, rep):
                     finished = "NoAnswer" if (not ch[2] and rq["rona"]) else "Answer"
                     detail = (e, ch)
                     if cache_on:
-                        cache[(lc, rq["ty"], rq["cls"])] = (e["t0"] + e["dur"] + 1000 * ch[3], ch[2], NOERROR, None)
+                        cache.put((lc, rq["ty"], rq["cls"]), (e["t0"] + e["dur"] + 1000 * ch[3], ch[2], NOERROR, None))
                     seg_done = True
                     break
                 elif c[0] == "yx":
@@ -1031,7 +1078,7 @@ def oracle(ctx, case, obs, rep):
                     nx_names.append(lc)
                     nx_msgs[lc] = e["resp"]["msg"]
                     if cache_on:
-                        cache[(lc, ANY, rq["cls"])] = (e["t0"] + e["dur"] + 1000 * c[1][3], False, NXDOMAIN, None)
+                        cache.put((lc, ANY, rq["cls"]), (e["t0"] + e["dur"] + 1000 * c[1][3], False, NXDOMAIN, None))
                     break  # next candidate
             if not ok or seg_done:
                 break
@@ -1116,13 +1163,15 @@ def oracle(ctx, case, obs, rep):
                     fail("chain/min-ttl", f"{where}: minimum_ttl {res['minttl']} expiration {res['exp']}, reference {ch[3]} / {exp}")
         # ---- cache contents: exactly the reference view (keys, expiry, polarity), nothing else
         if cache_on:
-            ref = {k: v[:3] for k, v in cache.items() if v[0] > end}
+            ref = {k: v[:3] for k, v in cache.live(end).items()}
             got = {k: v[:3] for k, v in o["after"].items()}
             if ref != got:
                 diff = sorted(set(ref.items()) ^ set(got.items()))[:4]
                 fail("cache/key-exact", f"{where}: cache differs from (name,type,class)-keyed reference at {[(enc_labels(k[0]), k[1], k[2], v) for k, v in diff]}")
+            cache.adopt(o["after"])
         elif o["after"]:
             fail("cache/off", where)
+    return cache.evictions > 0
 
 
 def oracle_entry(ctx, case, ob, rep):
@@ -1254,7 +1303,7 @@ def oracle_name(ctx, case, ob, rep):
                      "rona": int(bool(kw.get("raise_on_no_answer", True))), "search": None if kw.get("search") is None else int(bool(kw["search"])),
                      "life": None if kw.get("lifetime") is None else to_ms(kw["lifetime"]), "gap": 0, "src": kw.get("source"),
                      "sport": kw.get("source_port", 0)})
-    oracle(ctx, {"cfg": cfg, "reqs": reqs}, calls, rep)
+    return oracle(ctx, {"cfg": cfg, "reqs": reqs}, calls, rep)
 
 
 # ------------------------------------------------------------------------------------------------
@@ -1270,8 +1319,13 @@ def eval_case(ctx: Ctx, c: dict, gen=None):
         line, obs, tokens = run_impl(c, "sync", gen)
         # from here on the script is fixed
         rep = {"kind": k, "case": c}
-        ctx.corr(op_line(c, tokens), line, c)
-        oracle(ctx, c, obs, rep)
+        evicted = oracle(ctx, c, obs, rep)
+        if evicted:
+            # a small LRU cache that had to evict is not the unbounded timed map of the Lean model: such histories are
+            # judged by the oracle's reference LRU and the sync/async comparison only
+            ctx.count("run.lru-evicting-not-modelled")
+        else:
+            ctx.corr(op_line(c, tokens), line, c)
         aline, aobs, _ = run_impl(c, "async", None)
         if aline != line:
             ctx.fail("C16/async/decision-differs", f"sync: {line}  async: {aline}", rep)
@@ -1299,8 +1353,8 @@ def eval_case(ctx: Ctx, c: dict, gen=None):
         return True
     if k == "rname":
         line, obs, tokens = run_impl(c, "sync", gen)
-        ctx.corr(op_line(c, tokens), line, c)
-        oracle_name(ctx, c, obs[0], rep)
+        if not oracle_name(ctx, c, obs[0], rep):
+            ctx.corr(op_line(c, tokens), line, c)
         aline, aobs, _ = run_impl(c, "async", None)
         if aline != line:
             ctx.fail("C16/async/decision-differs", f"resolve_name sync: {line}  async: {aline}", rep)
@@ -1441,6 +1495,8 @@ def gen_cfg(rng):
     cfg = {"servers": servers, "search": [hexl(s) for s in search], "domain": None if domain is None else hexl(domain),
            "ndots": rng.choice([None, None, 0, 1, 2, 3]), "usd": rng.below(2), "timeout": rng.choice(TIMEOUTS),
            "lifetime": rng.choice(LIFETIMES), "rsf": rng.below(2), "cache": rng.choice([0, 1, 1, 1, 2])}
+    if cfg["cache"] == 2:
+        cfg["lru"] = rng.choice([50, 50, 1, 2, 3])
     if rng.chance(1, 40):
         cfg["timeout"] = 0  # falsy option value
     if rng.chance(1, 40):
@@ -1608,6 +1664,41 @@ def gen_run(ctx, rng):
     return case, gen
 
 
+def gen_churn(ctx, rng):
+    """many names through a tiny (or no, or plain) cache: entries expire, are asked again, and are pushed out"""
+    names = [[b"a", b""], [b"b", b""], [b"c", b""], [b"d", b""], [b"e", b"example", b""]]
+    ttls = rng.choice([[1], [5], [1, 5], [1, 30], [5, 60]])
+    cache = rng.choice([0, 1, 2, 2, 2, 2])
+    cfg = {"servers": [[0, 0]] if rng.chance(2, 3) else [[0, 0], [1, 0]], "search": [], "domain": None, "ndots": None, "usd": 0,
+           "timeout": 2000, "lifetime": 5000, "rsf": rng.below(2), "cache": cache}
+    if cache == 2:
+        cfg["lru"] = rng.choice([1, 2, 2, 3])
+    big = 1000 * max(ttls)
+    reqs = []
+    for i in range(rng.range(4, 9)):
+        q = rng.choice(names[: rng.choice([2, 3, 4, 5])])
+        if rng.chance(1, 8):
+            q = [bytes(l).swapcase() for l in q]
+        reqs.append({"qname": hexl(q), "ty": rng.choice([A, A, A, TXT]), "cls": IN, "tcp": 0, "rona": 0 if rng.chance(1, 5) else 1, "search": None,
+                     "life": None, "gap": 0 if i == 0 else rng.choice([0, 0, 1, 500, big - 1, big, big + 1, 2 * big, 3 * big])})
+    case = {"kind": "run", "cfg": cfg, "reqs": reqs, "script": [], "profile": "churn"}
+
+    def gen(world, ns, request, timeout_ms, tcp):
+        q = request.question[0]
+        x = rng.below(20)
+        d = rng.choice([0, 1, 2, 10])
+        ql, qc, qt = list(q.name.labels), int(q.rdclass), int(q.rdtype)
+        if x < 13:
+            return {"k": "r", "d": d, "rcode": NOERROR, "qr": 1, "qc": 1, "an": [rr(ql, qc, qt, rng.choice(ttls))], "au": []}
+        if x < 15:
+            return {"k": "r", "d": d, "rcode": NOERROR, "qr": 1, "qc": 1, "an": [], "au": [[hexl(ql), qc, rng.choice(ttls), rng.choice(ttls)]]}
+        if x < 17:
+            return {"k": "r", "d": d, "rcode": NXDOMAIN, "qr": 1, "qc": 1, "an": [], "au": [[hexl(ql), qc, rng.choice(ttls), rng.choice(ttls)]]}
+        return gen_outcome(rng, "mixed", cfg, ql, qc, qt, timeout_ms)
+
+    return case, gen
+
+
 def gen_qnames_case(rng):
     cfg = gen_cfg(rng)
     q = gen_qname(rng)
@@ -1717,6 +1808,11 @@ def generate(ctx: Ctx, scale: float, rng):
         c = gen_qnames_case(rng)
         ctx.case(("qnames", case_key(c)), sample=c)
         eval_case(ctx, c)
+    for _ in range(n(600)):
+        c, gen = gen_churn(ctx, rng)
+        nt = eval_case(ctx, c, gen)
+        ctx.case(("churn", case_key(c)), nontrivial=nt, sample=c if len(c["script"]) < 6 else None)
+        ctx.count("churn.cache." + ("none" if c["cfg"]["cache"] == 0 else "plain" if c["cfg"]["cache"] == 1 else f"lru{c['cfg']['lru']}"))
     for _ in range(n(1200)):
         c, gen = gen_rname(ctx, rng)
         eval_case(ctx, c, gen)
